@@ -130,11 +130,14 @@ pub enum QOut {
 }
 
 pub fn run_query(doc: &XmlDocument, q: &str) -> QOut {
+    let mut ctx = xml_xpath::eval::model::Context::default();
+    run_query_in(doc, q, &mut ctx)
+}
+
+/// the same with a caller-owned evaluation context (one context may serve a whole edit history)
+pub fn run_query_in(doc: &XmlDocument, q: &str, ctx: &mut xml_xpath::eval::model::Context) -> QOut {
     let desc = describe(doc);
-    let r = panics::catch(|| {
-        let mut ctx = xml_xpath::eval::model::Context::default();
-        xml_xpath::query(doc.clone(), q, &mut ctx).map_err(|_| ())
-    });
+    let r = panics::catch(std::panic::AssertUnwindSafe(|| xml_xpath::query(doc.clone(), q, ctx).map_err(|_| ())));
     match r {
         Err(_) => QOut::Panic,
         Ok(Err(_)) => QOut::Err,
@@ -259,6 +262,9 @@ impl Property for C14 {
                 }
             }};
         }
+        // one evaluation context per live document serves the whole history (a caller may keep its context across
+        // edits); the re-parsed copies are queried with a fresh context each time
+        let mut live_ctx: Vec<xml_xpath::eval::model::Context> = pool.docs.iter().map(|_| xml_xpath::eval::model::Context::default()).collect();
         for (step, op) in ops.iter().enumerate() {
             let kind = op["op"].as_str().unwrap_or("").to_string();
             let out = hist::apply(&mut pool, op);
@@ -311,7 +317,7 @@ impl Property for C14 {
                     }
                 };
                 for q in QUERIES {
-                    let a = run_query(d, q);
+                    let a = run_query_in(d, q, &mut live_ctx[di]);
                     let b = run_query(&re, q);
                     if a != b {
                         fail!(
